@@ -16,7 +16,8 @@ From QV Require Import Base.Res Base.Octets Base.ListX Gen.ZoneConsts Model.Zone
   Proofs.ZoneBaseP Proofs.ZoneRrsetP Proofs.ZoneIterP Proofs.ZoneTopP Proofs.ZoneSpellP
   Proofs.ZoneStoreP Proofs.ZoneValidP.
 From QV Require Model.NameWire Model.RdataM Spec.NameWireS Spec.NameRepr Spec.RdataFormatS Spec.RdataEqS
-  Proofs.NameWireP Proofs.NameWireSP Proofs.RdNameP Proofs.RdNameEqP Proofs.RdataEqSP Proofs.RdataEqFullP.
+  Proofs.NameWireP Proofs.NameWireSP Proofs.RdNameP Proofs.RdNameEqP Proofs.RdataEqSP Proofs.RdataEqFullP
+  Model.RdataSetM Proofs.RdataSetP.
 Local Open Scope nat_scope.
 
 (* ================================================================ Part A: the instances *)
@@ -155,6 +156,37 @@ Proof.
   unfold spec_rrset. destruct (records_at R m ty) as [|r0 rest] eqn:E; [discriminate|].
   intros H; inversion H; subst; clear H. simpl. split; [reflexivity|].
   apply (dedup_first_nodup_by spec_req cls ty). intros c t a b d. apply spec_req_trans.
+Qed.
+
+(* ---- the list-level RdataSetOwned::insert of the zone model IS C19's octet-buffer model of it
+   (Model/RdataSetM.v: the loop over the stored members calling [equals] with early exit, the u16 length
+   prefix, the Vec<u8>), run with the real equality: it never fails, and the buffer it produces is the
+   encoding of what [rdataset_insert req_real] returns *)
+Lemma existsb_req_real c t r kept : wf_bytes r -> Forall wf_bytes kept ->
+  existsb (fun y => RdataEqS.spec_equals c t r y) kept = existsb (fun ex => req_real c t r ex) kept.
+Proof.
+  intros Hr Hk. induction Hk as [|x k Hx Hk IH]; simpl; auto.
+  rewrite IH, (req_real_spec c t r x Hr Hx). reflexivity.
+Qed.
+
+Lemma rdataset_insert_is_buffer be c t kept r :
+  Forall RdataSetP.small kept -> Forall wf_bytes kept -> RdataSetP.small r -> wf_bytes r ->
+  RdataSetM.set_insert be c t (RdataSetP.inner_of be kept) r =
+    Ok (RdataSetP.inner_of be (rdataset_insert req_real c t kept r),
+        negb (existsb (fun ex => req_real c t r ex) kept)).
+Proof.
+  intros Hs Hw Hr Hwr. rewrite (RdataEqFullP.set_insert_full c t be kept r Hs Hw Hr Hwr).
+  rewrite (existsb_req_real c t r kept Hwr Hw). unfold rdataset_insert.
+  destruct (existsb _ kept); reflexivity.
+Qed.
+
+Lemma rdataset_insert_buffer_iter be c t kept r :
+  Forall RdataSetP.small kept -> Forall wf_bytes kept -> RdataSetP.small r -> wf_bytes r ->
+  RdataSetM.set_iter be (RdataSetP.inner_of be (rdataset_insert req_real c t kept r)) =
+    rdataset_insert req_real c t kept r.
+Proof.
+  intros Hs Hw Hr Hwr. apply RdataSetP.set_iter_inner. unfold rdataset_insert.
+  destruct (existsb _ kept); auto. apply Forall_app. split; auto.
 Qed.
 
 (* ================================================================ Part B: dependence on the RDATA present *)
